@@ -8,6 +8,7 @@ pub mod c01;
 pub mod c02;
 pub mod c03;
 pub mod c07;
+pub mod c09;
 
 pub type Monitor = fn(&mut CaseCtx);
 
@@ -17,6 +18,7 @@ pub fn lookup(id: &str) -> Option<Monitor> {
         "C02" => c02::case,
         "C03" => c03::case,
         "C07" => c07::case,
+        "C09" => c09::case,
         _ => return None,
     })
 }
